@@ -25,7 +25,16 @@ type C09Case struct {
 func genC09Actions(t *rapid.T, r *Rule, allowAcc bool, accInc map[int]int, topID int) {
 	n := rapid.IntRange(1, 3).Draw(t, "nacts")
 	for i := 0; i < n; i++ {
-		switch rapid.IntRange(0, 9).Draw(t, "act") {
+		switch rapid.IntRange(0, 11).Draw(t, "act") {
+		case 10:
+			// the operand names a variable that does not exist (either spelling of the collection): nothing is added
+			r.Acts = append(r.Acts, fmt.Sprintf("setvar:tx.score=+%%{%s.nosuch%d}", rapid.SampledFrom([]string{"tx", "TX", "Tx"}).Draw(t, "undefcoll"), rapid.IntRange(1, 2).Draw(t, "undefn")))
+		case 11:
+			// %{rule.msg}: the message of THIS rule (none here unless the rule gets a literal one below)
+			r.Acts = append(r.Acts, "setvar:tx.lastmsg=%{rule.msg}")
+			if rapid.Bool().Draw(t, "litmsg") {
+				r.Acts = append(r.Acts, "msg:'literal message'")
+			}
 		case 0, 1:
 			r.Acts = append(r.Acts, fmt.Sprintf("setvar:tx.score=+%d", rapid.IntRange(1, 5).Draw(t, "inc")))
 		case 2:
@@ -104,7 +113,7 @@ func genC09(t *rapid.T) *C09Case {
 			if rapid.IntRange(0, 7).Draw(t, "plainskip") == 0 {
 				r.Skip = rapid.IntRange(1, 2).Draw(t, "pskipn")
 			}
-			if !r.Multi && rapid.IntRange(0, 3).Draw(t, "msg") == 0 {
+			if !r.Multi && !strings.Contains(strings.Join(r.Acts, ","), "{rule.msg}") && rapid.IntRange(0, 3).Draw(t, "msg") == 0 {
 				r.Acts = append(r.Acts, rapid.SampledFrom([]string{"msg:'hit %{MATCHED_VAR} by %{rule.id}'", "msg:'w=%{tx.w1} at %{MATCHED_VAR_NAME}'", "logdata:'%{MATCHED_VAR}'"}).Draw(t, "msgv"))
 			}
 		case kind <= 7: // chain
